@@ -22,6 +22,8 @@ type Store struct {
 	// Latency > 0 makes FindByKey take that long and return the caller's context error when the context
 	// ends meanwhile (what a database driver does).
 	Latency time.Duration
+	// AddLatency > 0 makes Add take that long before it touches the table (a slow write).
+	AddLatency time.Duration
 }
 
 func New() *Store { return &Store{M: map[string][]byte{}} }
@@ -59,6 +61,9 @@ func (s *Store) FindByKey(ctx context.Context, key []byte) ([]byte, error) {
 }
 
 func (s *Store) Add(_ context.Context, key []byte, chain []byte) error {
+	if s.AddLatency > 0 {
+		time.Sleep(s.AddLatency)
+	}
 	s.mu.Lock()
 	defer s.mu.Unlock()
 	n := s.AddCalls
